@@ -44,7 +44,7 @@ def read_table(path):
             fns.append(dict(idx=int(t[1]), name=t[2], fl=t[3], pol=t[4], limit=None if t[5] == "-" else int(t[5]),
                             ttl=None if t[6] == "-" else int(t[6]), mem=None if t[7] == "-" else int(t[7]),
                             fw=None if t[8] == "-" else (int(t[8]), int(t[9])), is_result=t[10] == "1",
-                            cache_if=t[11] == "1", inval_on=t[12] == "1", ret=int(t[13]) // 10, sig=int(t[13]) % 10,
+                            cache_if=t[11] == "1", inval_on=t[12] == "1", ret=int(t[13]) // 100, sig=int(t[13]) % 100,
                             tags=[] if t[14] == "-" else t[14].split(","), events=[] if t[15] == "-" else t[15].split(","),
                             deps=[] if t[16] == "-" else t[16].split(","), gates=int(t[17]) if len(t) > 17 else 0))
     return fns
@@ -58,7 +58,7 @@ def plain(f):
 PROFILES = {
     # which functions, pure bodies?, extra event kinds, threads
     "C01": dict(lifetime=True, sel=lambda f: True, pure=True, events=["tick", "invw", "tag", "invc"], threads=2),
-    "C02": dict(sel=lambda f: f["sig"] in (1, 2, 4, 5, 6, 7, 8, 9), pure=True, events=[], threads=2),
+    "C02": dict(sel=lambda f: f["sig"] in (1, 2, 4, 5, 6, 7, 8, 9, 10), pure=True, events=[], threads=2),
     "C03": dict(pingpong=True, sel=plain, pure=True, events=[], threads=3),
     "C09": dict(lifetime=True, sel=lambda f: f["is_result"] and not f["cache_if"], pure=False, events=["tick"], threads=1),
     "C10": dict(lifetime=True, sel=lambda f: f["cache_if"], pure=False, events=["tick"], threads=1),
@@ -74,7 +74,7 @@ PROFILES = {
     "C04R": dict(refresh=True, lifetime=True, sel=lambda f: f["limit"] is not None and (f["is_result"] or f["inval_on"] or f["cache_if"]),
                  pure=False, events=["tick", "invw", "invwb"], threads=1),
     "C05": dict(sel=lambda f: f["mem"] is not None, pure=False, events=["invw"], threads=2),
-    "C06": dict(lifetime=True, sel=lambda f: f["ttl"] is not None, pure=True, events=["tick", "invw"], threads=2),
+    "C06": dict(async_cases=True, lifetime=True, sel=lambda f: f["ttl"] is not None, pure=True, events=["tick", "invw"], threads=2),
     "C07": dict(pingpong=True, sel=lambda f: f["pol"] in ("fifo", "lru") and (f["limit"] or f["mem"]), pure=True, events=["invw", "invall", "tag", "event", "dep", "invc"], threads=3),
     "C08": dict(scores=True, pingpong=True, sel=lambda f: f["pol"] in ("lfu", "arc", "tlru") and (f["limit"] or f["mem"]), pure=True, events=["invw", "tick", "tag", "invc"], threads=3),
     "C15": dict(sel=lambda f: f["fl"] != "t", pure=True, events=["sget", "sreset", "sgetn", "tick", "invw"], threads=3),
@@ -276,7 +276,7 @@ def gen_refresh_case(r, fns, prof):
     for _ in range(r.below(3)):
         evs.append(ev(r.below(cap)))
     victim = 0 if r.chance(2, 3) else r.below(cap)
-    evs.append(ev(victim, inv=1, ln=r.pick(LENS + [200, 200])))
+    evs.append(ev(victim, inv=r.pick([1, 1, 2]), ln=r.pick(LENS + [200, 200])))
     for x in range(cap, cap + 1 + r.below(2)):
         evs.append(ev(x, ln=r.pick(LENS[:3])))
     order = list(range(cap + 2))
@@ -341,9 +341,42 @@ def gen_score_case(r, fns, prof):
     return [f], evs
 
 
+def gen_bulk_inval_case(r, fns, prof):
+    """a recency-ordered cache is filled, an old entry is used again, then ONE invalidate_with removes more entries than
+    it leaves; afterwards new keys are stored until survivors are evicted: their order must be the old one"""
+    pool = [f for f in fns if prof["sel"](f) and f["fl"] != "t" and f["sig"] == 0 and (f["limit"] or 0) >= 5
+            and not f["ttl"] and not f["mem"] and not f["inval_on"] and not f["cache_if"] and not f["is_result"]]
+    if not pool:
+        return None
+    f = r.pick(pool)
+    L = f["limit"]
+
+    def ev(x):
+        return "E 0 call %d %d 0 ok %d %d 0 1" % (f["idx"], x, (f["idx"] * 37 + x * 11) % 500 + 1, LENS[x % 5])
+    evs = [ev(x) for x in range(L)]
+    for _ in range(1 + r.below(3)):
+        evs.append(ev(r.below(L)))                       # hits that make an older entry the most recent one
+    keep = sorted(set([r.below(L), r.below(L)]))
+    if len(keep) < 2:
+        keep = [0, L - 1]
+    gone = [x for x in range(L) if x not in keep]
+    evs.append("E 0 invw %d %s" % (f["idx"], ",".join(map(str, gone))))
+    for x in range(L, min(L + L, 12)):                    # refill and overflow (keys stay inside the named alphabet)
+        evs.append(ev(x))
+    for x in keep:
+        evs.append(ev(x))
+    return [f], evs
+
+
 def gen_case(r, fns, prof, nev):
     if prof.get("async_susp"):
         return gen_async_case(r, fns)
+    if prof.get("async_cases") and r.chance(1, 8):
+        return gen_async_case(r, fns)
+    if prof.get("heavy_inval") and r.chance(1, 10):
+        c = gen_bulk_inval_case(r, fns, prof)
+        if c:
+            return c
     if prof.get("scores") and r.chance(1, 5):
         c = gen_score_case(r, fns, prof)
         if c:
